@@ -206,24 +206,29 @@ pub fn test_case(case: &TagCase) -> TestResult {
         }
         let mut failed: Option<String> = None;
         for w in ws.iter_mut() {
-            let r = match ask(w, &req, case.texts.len()) {
+            let r = match ask(w, &req, 2 * case.texts.len()) {
                 Ok(r) => r,
                 Err(e) => {
                     failed = Some(e);
                     break;
                 }
             };
-            for (ti, (got, want)) in r.iter().zip(&truth).enumerate() {
+            // results come twice: from the predictor as built, and from the same predictor after a
+            // serialise/deserialise round trip inside that build
+            for (ri, got) in r.iter().enumerate() {
+                let ti = ri % case.texts.len();
+                let want = &truth[ti];
+                let variant = if ri < case.texts.len() { "" } else { " (predictor reloaded from its serialisation)" };
                 let got = match got {
                     Ok(g) => g,
                     Err(e) => {
-                        failed = Some(format!("build {} rejects text {:?}: {e}", w.name, case.texts[ti]));
+                        failed = Some(format!("build {}{variant} rejects text {:?}: {e}", w.name, case.texts[ti]));
                         break;
                     }
                 };
                 if got.scores != want.scores || got.labels != want.labels {
                     failed = Some(format!(
-                        "build {}: scores/boundaries of {:?} differ from the reference model: {:?} vs {:?}",
+                        "build {}{variant}: scores/boundaries of {:?} differ from the reference model: {:?} vs {:?}",
                         w.name, case.texts[ti], got.scores, want.scores
                     ));
                     break;
@@ -231,7 +236,7 @@ pub fn test_case(case: &TagCase) -> TestResult {
                 if w.has_tags {
                     if got.tags != want.tags {
                         failed = Some(format!(
-                            "build {}: tags of {:?} differ from the reference: {:?} vs {:?}",
+                            "build {}{variant}: tags of {:?} differ from the reference: {:?} vs {:?}",
                             w.name, case.texts[ti], got.tags, want.tags
                         ));
                         break;
@@ -271,8 +276,10 @@ pub fn run(rep: &mut Report) {
     let n = rep.n(6000, 20000);
     let rule = format!(
         "generated models (with tag models) x texts sent to {} worker processes, one per vaporetto \
-feature subset ({}), each using only Model::read_slice: every worker's scores and boundaries, \
-and the tags/tag scores of every worker compiled with tag-prediction, must equal RefScore/RefTags \
+feature subset ({}), each using only Model::read_slice, each predicting twice (with the predictor \
+as built and with the same predictor after a serialise/deserialise round trip inside that build): \
+every worker's scores and boundaries, and the tags/tag scores of every worker compiled with \
+tag-prediction, must equal RefScore/RefTags \
 (so all builds agree with each other AND with the ground truth). Non-trivial = a model entry \
 contributes to an existing boundary.",
         names.len(),
